@@ -62,7 +62,7 @@ pub fn run(r: &Report) {
     // ---- totality and size bound
     {
         let sub = "totality-and-size";
-        let maxlen = if thorough { 3 } else { 2 };
+        let maxlen = 3;
         r.space(sub, true, &format!("all byte strings of length <= {}, the hostile heads, and every truncation / single-byte substitution (14 structural bytes) of the encodings of all trees <= 3 nodes", maxlen), 1);
         let hs = hostile_heads();
         let trees = trees_up_to(3, &Alphabet::full());
@@ -120,7 +120,7 @@ pub fn run(r: &Report) {
     // ---- exact rendering of well-formed items
     {
         let sub = "exact-rendering";
-        let (n_all, n_more) = if thorough { (4usize, 5usize) } else { (3usize, 4usize) };
+        let (n_all, n_more) = if thorough { (4usize, 6usize) } else { (4usize, 5usize) };
         r.space(sub, true, &format!("all well-formed items <= {} nodes (12-leaf alphabet, valid UTF-8) in every head-width assignment, and all items of {} nodes in shortest heads: output must equal the reference rendering of the documented notation", n_all, n_more), 1);
         let alpha = Alphabet::full();
         let by = trees_by_size(n_more, &alpha);
